@@ -286,7 +286,7 @@ def _parse_config_struct(data: Any, cls: Any, path: List[str]) -> Any:
     # Check for left-over fields.
     for k in data.keys():
         if k not in items:
-            path.append(k)
+            path.append(str(k))
             pathstr = ".".join(path)
             raise QMI_ConfigurationException(f"Unknown configuration item {pathstr}")
 
